@@ -8,7 +8,7 @@
 From Coq Require Import Reals Lra List Bool Arith ZArith.
 From Coquelicot Require Import Complex.
 From QV Require Import Sem Mat2 Toff2 Chain Barenco GateA McxModel LinearMcx LdmcsuModel QdmcuModel.
-From QV Require LdmcuCore LdmcuModel LdmcuInst AbcModel LdmcsuEig Transpose MultiTarget MultiTargetAll.
+From QV Require LdmcuCore LdmcuModel LdmcuInst AbcModel LdmcsuEig Transpose MultiTarget MultiTargetAll McuModel.
 Open Scope R_scope.
 
 (* CV(c->t) ; MCX(rest->c) ; CV^dagger(c->t) ; MCX(rest->c) ; C^{rest}V(t)  =  U on t controlled on rest /\ c,
@@ -132,3 +132,21 @@ Theorem C04_multitarget : forall (k nt : nat), 1 <= nt -> 2 <= k ->
   = Transpose.comp state (map (fun it => appf (fun b => if pmatch pat k b then U (fst it) else I2) (snd it)) (MultiTarget.Lk k nt)) psi.
 Proof. exact MultiTargetAll.mtm_sem_all. Qed.
 Print Assumptions C04_multitarget.
+
+(* MCU, the approximate gate, when the base count equals the number of controls T: the sweeps of Ldmcu without the gate from control
+   0 to the target.  EXACT operator: the ideal gate W^(2^(T-1)) = U on the matching basis states, times W^-1 on the target whenever
+   control 0 matches its pattern bit.  So ideal^-1 * circuit is a controlled W^-1, and the deviation from the ideal operator is that
+   of the deepest root from the identity: for an eigenphase theta of U it is |e^(-i theta/2^(T-1)) - 1|, bounded by the requested error
+   by C04_mcu_root_deviation when theta / 2^(T-1) <= arccos(1 - eps^2/2), which is how the base count is chosen. *)
+Theorem C04_mcu_base : forall (T : nat) (W Wi : mat2) (pat : list bool) (psi : state),
+  1 <= T -> mmul W Wi = I2 -> mmul Wi W = I2 ->
+  LdmcuInst.frun (LdmcuInst.ELd T W Wi) (McuModel.mcu0 T pat) psi
+  = appf (fun b => mmul (if pmatch pat T b then LdmcuInst.npow W (2 ^ (T - 1)) else I2)
+                        (if Bool.eqb (get b 0) (nth 0 pat true) then Wi else I2)) T psi.
+Proof. exact McuModel.mcu0_sem. Qed.
+Print Assumptions C04_mcu_base.
+
+Theorem C04_mcu_root_deviation : forall (phi delta eps : R), (Rabs phi <= delta)%R -> (delta <= PI)%R ->
+  (cos delta = 1 - eps * eps / 2)%R -> ((cos phi - 1) * (cos phi - 1) + sin phi * sin phi <= eps * eps)%R.
+Proof. exact McuModel.root_deviation. Qed.
+Print Assumptions C04_mcu_root_deviation.
